@@ -39,13 +39,36 @@ class Clock(_dt.datetime):
     def now(cls, tz=None):
         return _dt.datetime.now(tz) + cls.offset
 
+    # everything else behaves - and returns objects of the type - as the real class does (a time stamp of this subclass
+    # would not be JSON-serialisable: decoders that write a dump file would refuse every text line)
+    @classmethod
+    def strptime(cls, date_string, fmt):
+        return _dt.datetime.strptime(date_string, fmt)
+
+    @classmethod
+    def fromisoformat(cls, s):
+        return _dt.datetime.fromisoformat(s)
+
+    @classmethod
+    def fromtimestamp(cls, *a, **k):
+        return _dt.datetime.fromtimestamp(*a, **k)
+
+    @classmethod
+    def combine(cls, *a, **k):
+        return _dt.datetime.combine(*a, **k)
+
 
 def make_decoders(cfg: dict, rng: random.Random):
     from nmea2000.decoder import NMEA2000Decoder
     entries = [PGN[k] for k in sorted(cfg["nums"])] + [spell(IDS[k], rng) if k not in ("P2",) else rng.choice([IDS[k], IDS[k].lower()])
                                                       for k in sorted(cfg["ids"])]
+    if entries and rng.random() < 0.3:       # an entry given twice (by number twice, or an id in two spellings) is the same list
+        e0 = rng.choice(entries)
+        entries.append(e0 if isinstance(e0, int) else spell(e0, rng))
     rng.shuffle(entries)
     mfrs = [spell(MFR[m], rng) for m in sorted(cfg["mfrs"])]
+    if mfrs and rng.random() < 0.3:
+        mfrs.append(spell(mfrs[0], rng))
     common = {"build_network_map": bool(cfg["netmap"])}
     if cfg["mfrMode"] == "exclude":
         common["exclude_manufacturer_code"] = mfrs
@@ -59,7 +82,18 @@ def make_decoders(cfg: dict, rng: random.Random):
         kw["exclude_pgns"] = entries
     elif cfg["mode"] == "include":
         kw["include_pgns"] = entries
-    return NMEA2000Decoder(**kw), NMEA2000Decoder(**common), NMEA2000Decoder(**common), entries
+    # the caller's argument objects are used for several instances (a configuration kept in one place): the filtered decoder of
+    # the history is the SECOND instance built from them, and what the lists contain afterwards is what the caller wrote
+    before = repr(sorted(kw.items(), key=lambda x: x[0]))
+    first = NMEA2000Decoder(**kw)
+    first.close()
+    F = NMEA2000Decoder(**kw)
+    if repr(sorted(kw.items(), key=lambda x: x[0])) != before:
+        ARGUMENTS_CHANGED.append((before, repr(sorted(kw.items(), key=lambda x: x[0]))))
+    return F, NMEA2000Decoder(**common), NMEA2000Decoder(**common), entries
+
+
+ARGUMENTS_CHANGED: list = []      # (before, after) of constructor arguments a decoder's construction modified (a note, see C16)
 
 
 class Frame(tuple):
@@ -84,6 +118,9 @@ def deliver(dec, fr: Frame, fmt: str):
     if fmt in ("plain-old", "plain-future"):
         stamp = "2011-11-24-22:42:04.388" if fmt == "plain-old" else "2031-01-02-03:04:05.678"
         return dec.decode_basic_string("%s,%d,%d,%d,%d,%d,%s" % (stamp, prio, pgn, src, dst, len(data), ",".join("%02x" % b for b in data)))
+    if fmt == "plain-combined":          # (whole messages only)
+        return dec.decode_basic_string("2011-11-24-22:42:04.388,%d,%d,%d,%d,%d,%s" % (prio, pgn, src, dst, len(data), ",".join("%02x" % b for b in data)),
+                                       already_combined=True)
     if fmt == "acti-late":               # (whole messages only: never used for fast-packet frames)
         return dec.decode_actisense_string("A007200.250 %05X %05X %s" % ((src << 12) | (dst << 4) | prio, pgn, bytes(data).hex().upper()))
     return dec.decode_tcp(fp.ebyte_packet(pgn, src, dst, prio, bytes(data)))
@@ -123,6 +160,10 @@ def packet_for(ev: dict, counter: list) -> tuple[Frame, dict]:
         data = fp.can_data(ev["seq"], i, n, chunk)
         return Frame((PGN["F"], src, 255, 6, data)), \
             {"k": "frame", "src": ev["src"], "seq": ev["seq"], "fc": i, "len": n, "chunk": chunk}
+    if k == "whole":                       # a distance log message delivered pre-assembled
+        counter[0] += 1
+        full = bytes([0x10 + counter[0] % 7, 0x20, 0x00, 0x10, 0x20, 0x01, ev["src"], 0x02, 0x03, 0x00, counter[0] % 200, 0x06, 0x07, 0x00])
+        return Frame((PGN["F"], SRC[ev["src"]], 255, 6, full)), {"k": "whole", "src": ev["src"], "tok": list(full)}
     if k == "claim":
         return Frame((PGN["CLAIM"], SRC[ev["src"]], 255, 6, name_payload(ev["name"], ev["src"]))), \
             {"k": "claim", "src": ev["src"], "name": ev["name"]}
@@ -155,6 +196,10 @@ def _refused_claim(src_idx: int) -> bytes:
 
 
 BAD_INPUTS += [("tcp", fp.ebyte_packet(60928, SRC[i], 255, 6, _refused_claim(i))) for i in (1, 2, 3)]
+# a pre-assembled message of the fast-packet PGN that is refused with an error (its date field is out of range) from each
+# source, through the two routes that take whole messages
+BAD_INPUTS += [("basic-combined", "2011-11-24-22:42:04.388,6,128275,%d,255,14,fe,ff,00,10,20,01,%02x,02,03,00,05,06,07,00" % (SRC[i], i)) for i in (1, 2, 3)]
+BAD_INPUTS += [("acti", "A007200.250 %05X %05X %s" % ((SRC[i] << 12) | (255 << 4) | 6, 128275, "FEFF001020010%d0203000506070" % i + "0")) for i in (1, 2, 3)]
 
 
 def feed_bad(dec, i: int):
@@ -167,6 +212,8 @@ def feed_bad(dec, i: int):
         return dec.decode_yacht_devices_string(data)
     if kind == "acti":
         return dec.decode_actisense_string(data)
+    if kind == "basic-combined":
+        return dec.decode_basic_string(data, already_combined=True)
     return dec.decode_basic_string(data)
 
 
@@ -250,7 +297,9 @@ def replay(behaviours, rng: random.Random):
                     continue
                 pkt, min_ = packet_for(ev, counter)
                 # every step arrives through another input format (the same one for the decoder and its twin)
-                fmt = ev.get("fmt") or rng.choice(FORMATS[:5] if k == "frame" else FORMATS)
+                fmt = ev.get("fmt") or rng.choice(FORMATS[:5] if k == "frame" else ("acti-late", "plain-combined") if k == "whole" else FORMATS)
+                if k == "whole" and fmt not in ("acti-late", "plain-combined"):
+                    fmt = "plain-combined"
                 evs.append({"in": uniform(min_), "window": window, "who": "FU", "fmt": fmt,
                             "obsF": observe(F, lambda d: deliver(d, pkt, fmt)), "obsU": observe(U, lambda d: deliver(d, pkt, fmt))})
             traces.append({"cfg": cfg, "evs": evs, "entries": [str(e) for e in entries]})
